@@ -867,3 +867,98 @@ func TestC19_DistinctSuites(t *testing.T) {
 	}
 	c19Many.rec().Exhaustive()
 }
+
+// ---------------------------------------------------------------------------
+// Undecodable hex in a selected OCRA input field, enumerated. A generation request whose selected field is not hex
+// text has no result: answering it with a success status and a code (computed over something else, e.g. over no
+// data) does not distinguish success from failure. Validation is not judged here beyond "never true": the service
+// answers 200 {"valid":false} for every input the library refuses.
+
+type c19HexCase struct {
+	Mask  int    `json:"mask"`  // bit 0 C, 1 Q, 2 P, 3 S, 4 T selected by the structured suite
+	Field int    `json:"field"` // index of the selected field given junk
+	Junk  string `json:"junk"`
+	Val   bool   `json:"validate"`
+}
+
+var c19HexJunk = []string{"zz", "3132zz", "zz3132", "31g2", "!!", "31%32", "xyzw", "3132333435363738zz", "éé", "g"}
+
+func checkC19Hex(c c19HexCase) verdict {
+	sv := server()
+	names := []string{"counter_hex", "challenge_hex", "password_hex", "session_info_hex", "timestamp_hex"}
+	good := []string{"0000000000000001", "3132333435363738", strings.Repeat("ab", 20), "0102", "0000000000000002"}
+	in := map[string]any{}
+	for k := range names {
+		if c.Mask>>uint(k)&1 == 1 {
+			in[names[k]] = good[k]
+		}
+	}
+	in[names[c.Field]] = c.Junk
+	body := map[string]any{"secret": "JBSWY3DPEHPK3PXP", "suite": map[string]any{"hash_function": "SHA1", "code_digits": 6, "challenge_format": 1,
+		"include_counter": c.Mask&1 != 0, "include_challenge": c.Mask&2 != 0, "include_password": c.Mask&4 != 0, "include_session": c.Mask&8 != 0, "include_timestamp": c.Mask&16 != 0,
+		"password_hash": 1, "timestep": 30}, "input": in}
+	path, ep := "/ocra/generate", "ocra-gen"
+	if c.Val {
+		path, ep = "/ocra/validate", "ocra-val"
+		body["code"] = "123456"
+	}
+	b, _ := json.Marshal(body)
+	labels := []string{"ep=" + ep, "field=" + names[c.Field]}
+	status, rb, err := rawHTTP(sv.addr, "POST", path, b, 5*time.Second)
+	if err != nil {
+		if status, rb, err = rawHTTP(sv.addr, "POST", path, b, 15*time.Second); err != nil {
+			hang("C19", "hex-fields", c, recorders["C19/hex-fields"], fmt.Sprintf("POST %s with %s=%q got no answer within 5 s and again within 15 s: %v", path, names[c.Field], c.Junk, err))
+		}
+	}
+	if status < 100 || status > 599 {
+		return bad(true, labels, "POST %s: status %d", path, status)
+	}
+	labels = append(labels, fmt.Sprintf("status=%dxx", status/100))
+	if status < 400 {
+		if !c.Val && successPayload(ep, rb) {
+			return bad(true, labels, "POST %s with the selected field %s = %q (not hex) answered %d %s: a success status and a code for a request that has no result", path, names[c.Field], c.Junk, status, trunc(string(rb), 100))
+		}
+		var m map[string]any
+		if c.Val && json.Unmarshal(rb, &m) == nil && m["valid"] == true {
+			return bad(true, labels, "POST %s with the selected field %s = %q (not hex) answered valid=true", path, names[c.Field], c.Junk)
+		}
+	}
+	if i := int(c.Mask)*50 + c.Field*10; i%8 == 0 { // the service keeps serving (every 8th case)
+		if st, pb, perr := rawHTTP(sv.addr, "POST", "/hotp/generate", []byte(`{"secret":"GEZDGNBVGY3TQOJQGEZDGNBVGY3TQOJQ","counter":1,"digits":"6","algorithm":"SHA1"}`), 5*time.Second); perr != nil || st != 200 || !strings.Contains(string(pb), `"287082"`) {
+			return bad(true, labels, "probe after POST %s with %s=%q: status %d body %s err %v (want 200 with the RFC 4226 value 287082)", path, names[c.Field], c.Junk, st, trunc(string(pb), 200), perr)
+		}
+	}
+	if !sv.alive() {
+		return bad(true, labels, "the server process died: %s", tailStr(sv.stderr.String(), 800))
+	}
+	if sv.stderr.alarm() {
+		return bad(true, labels, "the server reports an unrecovered panic, a fatal error or a data race: %s", trunc(sv.stderr.String(), 1500))
+	}
+	return ok(true, labels...)
+}
+
+var c19Hex = newPart("C19", "hex-fields",
+	"complete product: 31 non-empty field selections of a structured suite x each selected OCRA input field x 10 texts that are not hex under any reading (letters g..z, punctuation, multi-byte) with all other selected fields well-formed x {generate, validate}; oracle: generation never answers with a success status and a code, validation never with valid=true, a complete response within the watchdog, the RFC probe afterwards is answered correctly; every case distinct and non-trivial",
+	checkC19Hex)
+
+func TestC19_HexFields(t *testing.T) {
+	defer c19Hex.rec().Flush()
+	i := 0
+	for mask := 1; mask < 32; mask++ {
+		for f := 0; f < 5; f++ {
+			if mask>>uint(f)&1 == 0 {
+				continue
+			}
+			for _, j := range c19HexJunk {
+				for _, val := range []bool{false, true} {
+					i++
+					if !ev.Mine(i) {
+						continue
+					}
+					c19Hex.each(t, c19HexCase{Mask: mask, Field: f, Junk: j, Val: val})
+				}
+			}
+		}
+	}
+	c19Hex.rec().Exhaustive()
+}
